@@ -3133,7 +3133,12 @@ impl<'a, R: FileManager> FrontendCtx<'a, R> {
             if selecting_quasis {
                 let quasis = &it.quasis[quasis_idx];
                 quasis_idx += 1;
-                acc.push(TplLitTypeItem::StringConst(quasis.raw.to_string()));
+                // the text the template denotes (escape sequences interpreted), not its source spelling
+                let text = match &quasis.cooked {
+                    Some(cooked) => cooked.to_string_lossy().to_string(),
+                    None => quasis.raw.to_string(),
+                };
+                acc.push(TplLitTypeItem::StringConst(text));
                 selecting_quasis = false;
             } else {
                 let type_ = &it.types[types_idx];
@@ -3160,7 +3165,10 @@ impl<'a, R: FileManager> FrontendCtx<'a, R> {
             Ok(Runtype::single_string_const(
                 &it.quasis
                     .iter()
-                    .map(|it| it.raw.to_string())
+                    .map(|it| match &it.cooked {
+                        Some(cooked) => cooked.to_string_lossy().to_string(),
+                        None => it.raw.to_string(),
+                    })
                     .collect::<String>(),
             ))
         }
